@@ -259,6 +259,31 @@ pub fn c19(g: &mut Gen) {
         lines.push("bv FULL ser".to_string());
         g.group(lines);
     }
+    // every sequence of enable_* calls incl. enable_pred_succ (`p` = rank + select), from every starting subset, also
+    // after a reload of a partial subset: supports reported, equality with the fully enabled value, answers
+    for (len, kind) in [(0usize, 0usize), (70, 2), (700, 3)] {
+        let bits = make_bits(g, len, kind);
+        let mut lines = vec![format!("bv FULL from_raw {} {}", len, words_of_bits(&bits)), "bv FULL enable rsz".to_string(),
+                             format!("bv RS from_raw {} {}", len, words_of_bits(&bits)), "bv RS enable rs".to_string()];
+        let alpha = ["r", "s", "z", "p"];
+        let mut id = 0;
+        for a in alpha { for b in alpha { for c in ["", "r", "s", "z", "p"] {
+            id += 1;
+            let n = format!("E{}", id);
+            lines.push(format!("bv {} from_raw {} {}", n, len, words_of_bits(&bits)));
+            lines.push(format!("bv {} enable {}", n, a));
+            if id % 3 == 0 { lines.push(format!("ser reload {} {} extra=0", n, n)); }
+            lines.push(format!("bv {} enable {}", n, b)); lines.push(format!("bv {} supports", n));
+            if !c.is_empty() { lines.push(format!("bv {} enable {}", n, c)); lines.push(format!("bv {} supports", n)); }
+            // after `p` anywhere in the history predecessor / successor must work
+            if a == "p" || b == "p" || c == "p" {
+                for x in [0usize, len / 2, len] { lines.push(format!("bv {} pred {}", n, x)); lines.push(format!("bv {} succ {}", n, x)); }
+                if a != "z" && b != "z" && c != "z" { lines.push(format!("bv {} eq RS", n)); }
+            }
+            lines.push(format!("bv {} enable rsz", n)); lines.push(format!("bv {} eq FULL", n));
+        } } }
+        g.group(lines);
+    }
     // composite structures load from files whose embedded bitvectors carry no support structures (document-level encoder)
     for n in [0u64, 1, 70, 1000] {
         let m = std::cmp::min(n, 40);
